@@ -63,6 +63,8 @@ type coreSim struct {
 	mtuChanged bool
 	stats     map[string]int
 	emitted   [2]map[uint32]int // PUSH transmissions per sn, per sender
+	trace     []string          // offset-normalised observable trace (C12), when traceOn
+	traceOn   bool
 }
 
 func (s *coreSim) logf(format string, a ...any) {
@@ -204,6 +206,7 @@ func (s *coreSim) Send(e int, b []byte) int {
 		return -99
 	}
 	s.logf("send %d %d %s = %d\n", e, s.now, hx(b), ret)
+	s.tr("send %d %d = %d", e, len(b), ret)
 	s.state(e)
 	s.stats["send"]++
 	if ret == 0 {
@@ -230,6 +233,7 @@ func (s *coreSim) Recv(e int, buflen int) int {
 		d = buf[:n]
 	}
 	s.logf("recv %d %d %d = %d %s\n", e, s.now, buflen, n, hx(d))
+	s.tr("recv %d %d = %d %s", e, buflen, n, hx(d))
 	s.state(e)
 	s.stats["recv"]++
 	if n >= 0 {
@@ -265,6 +269,7 @@ func (s *coreSim) Input(e int, d []byte, regular, acknd bool) int {
 	}
 	o := s.collect(e)
 	s.logf("input %d %d %d %d %s = %d %s\n", e, s.now, r, a, hx(d), ret, outsStr(o))
+	s.tr("input %d %s = %d %s", e, s.normDgram(1-e, d), ret, s.normOuts(e, o))
 	s.state(e)
 	s.stats["input"]++
 	if ret != 0 {
@@ -290,6 +295,7 @@ func (s *coreSim) Flush(e int, full bool) uint32 {
 	}
 	o := s.collect(e)
 	s.logf("flush %d %d %d = %d %s\n", e, s.now, ft, next, outsStr(o))
+	s.tr("flush %d %d @%d = %d %s", e, ft, s.now-s.cfg.Clock, next, s.normOuts(e, o))
 	s.state(e)
 	s.stats["flush"]++
 	s.monFlush(e, before, o, full)
@@ -308,6 +314,7 @@ func (s *coreSim) Update(e int) {
 	}
 	o := s.collect(e)
 	s.logf("update %d %d = %s\n", e, s.now, outsStr(o))
+	s.tr("update %d @%d = %s", e, s.now-s.cfg.Clock, s.normOuts(e, o))
 	s.state(e)
 	s.stats["update"]++
 	s.monFlush(e, before, o, true)
@@ -318,6 +325,7 @@ func (s *coreSim) Check(e int) uint32 {
 	s.ops = append(s.ops, fmt.Sprintf("check %d %d", e, s.now))
 	r := s.k[e].Check()
 	s.logf("check %d %d = %d\n", e, s.now, r)
+	s.tr("check %d @%d = %d", e, s.now-s.cfg.Clock, r-s.cfg.Clock)
 	s.stats["check"]++
 	return r
 }
@@ -597,4 +605,46 @@ func (s *coreSim) healAndCheck(limit uint32, useUpdate bool) int {
 		}
 	}
 	return d
+}
+
+// ---- C12: offset-normalised trace ----
+
+func (s *coreSim) tr(format string, a ...any) {
+	if s.traceOn {
+		s.trace = append(s.trace, fmt.Sprintf(format, a...))
+	}
+}
+
+// normDgram rewrites a datagram emitted by endpoint `from` with sequence numbers relative to the
+// initial numbers and timestamps relative to the initial clock; header leftovers of WASK/WINS
+// (sn, ts) are don't-care and zeroed.  Malformed tails are kept verbatim.
+func (s *coreSim) normDgram(from int, d []byte) string {
+	segs, ok := parseWire(d)
+	if !ok {
+		return "raw:" + hx(d)
+	}
+	var sb strings.Builder
+	for _, w := range segs {
+		own, peer, clk := s.cfg.Isn[from], s.cfg.Isn[1-from], s.cfg.Clock
+		sn, ts := w.sn, w.ts
+		switch w.cmd {
+		case IKCP_CMD_PUSH:
+			sn, ts = sn-own, ts-clk
+		case IKCP_CMD_ACK:
+			sn, ts = sn-peer, ts-clk
+		default:
+			sn, ts = 0, 0
+		}
+		fmt.Fprintf(&sb, "[%d c%d f%d w%d ts%d sn%d una%d %s]", w.conv, w.cmd, w.frg, w.wnd, ts, sn, w.una-peer, hx(w.data))
+	}
+	return sb.String()
+}
+
+func (s *coreSim) normOuts(from int, o [][]byte) string {
+	var sb strings.Builder
+	for _, d := range o {
+		sb.WriteString(s.normDgram(from, d))
+		sb.WriteByte('|')
+	}
+	return sb.String()
 }
